@@ -11,7 +11,7 @@ import (
 // address, or a pre-owned range that still carries the former incarnation's uid ("waiting for delete event") -
 // none of the k IPs stays newly allocated; a successful Bind reports exactly one IP per range in request order.
 
-// BOUND: topologies {0,1,2,3}; a statefulset pod (symbolic policy) requesting 2..3 single-address ranges out of the topology's addresses; pre-state: optionally one of the requested addresses already belongs to the pod's key with the uid of its former incarnation (delete event not handled yet) or with the pod's own uid, optionally another requested address belongs to another pod; optionally one FloatingIP object creation of the Bind fails cleanly at a symbolic position 1..4; Bind on any node Filter approves
+// BOUND: topologies {0,1,2,3}; a statefulset pod (symbolic policy) requesting 2..3 single-address ranges out of the topology's addresses; optionally a restart of galaxy-ipam after the pre-state was built; pre-state: optionally one of the requested addresses already belongs to the pod's key with the uid of its former incarnation (delete event not handled yet) or with the pod's own uid, optionally another requested address belongs to another pod; optionally one FloatingIP object creation of the Bind fails cleanly at a symbolic position 1..4; Bind on any node Filter approves
 // ASSUME: C08: "newly allocated" = allocated after the Bind but not before it
 func VerifC08_q_bindAllOrNothing() {
 	w := vpNewWorld(nondetChoice(floatingip.VNumTopologies), false)
@@ -43,6 +43,12 @@ func VerifC08_q_bindAllOrNothing() {
 	case 2: // ... or already this pod's uid (a former, failed bind)
 		i := nondetChoice(k)
 		_ = w.plugin.ipam.AllocateSpecificIP(key, vpIP(order[i]), floatingip.Attr{Policy: constant.ReleasePolicyPodDelete, NodeName: "n1", Uid: "U2"})
+	}
+	if nondetBool() {
+		// galaxy-ipam restarts (tables rebuilt from the store) between the earlier allocation and this scheduling round
+		if w.restart() != nil {
+			return
+		}
 	}
 	if nondetBool() { // another pod owns one of the requested addresses
 		_ = w.plugin.ipam.AllocateSpecificIP("sts_ns_ss_ss-7", vpIP(order[nondetChoice(k)]), floatingip.Attr{Policy: constant.ReleasePolicyPodDelete, NodeName: "n1", Uid: "U7"})
